@@ -190,6 +190,7 @@ struct RunObs {
     after: Option<Vec<u8>>,
     result: ProcResult,
     completed_200: Vec<u32>,
+    cut_but_ok: Vec<(u32, u32)>,
     performed: u32,
     faults_fired_read_side: bool,
     faults_fired_write_side: bool,
@@ -358,6 +359,7 @@ fn run_history(sc: &Scenario, chooser: Chooser, keep_log: bool) -> HistoryOut {
                 after,
                 result: result.clone(),
                 completed_200: m.http.completed_200_bodies.clone(),
+                cut_but_ok: m.http.cut_but_ok_200.clone(),
                 performed: m.http.performed,
                 faults_fired_read_side: read_side,
                 faults_fired_write_side: write_side,
@@ -438,12 +440,23 @@ fn oracle(sc: &Scenario, obs: &[RunObs]) -> Option<Violation> {
             .iter()
             .map(|b| body_bytes(*b, sc.doc_size))
             .collect();
+        // A close-delimited body that lost nothing but trailing white space is
+        // still the complete document (a tree that checks the document before
+        // installing it will, rightly, install it).
+        let mut acceptable: Vec<Vec<u8>> = new_bodies.clone();
+        for (b, n) in &o.cut_but_ok {
+            let full = body_bytes(*b, sc.doc_size);
+            let got = &full[..(*n as usize).min(full.len())];
+            if full[got.len()..].iter().all(|c| c.is_ascii_whitespace()) && !got.is_empty() {
+                acceptable.push(got.to_vec());
+            }
+        }
         // O1 atomic replacement
         let after_ok = o.after == o.before
             || o
                 .after
                 .as_ref()
-                .map(|a| new_bodies.iter().any(|n| n == a))
+                .map(|a| acceptable.iter().any(|n| n == a))
                 .unwrap_or(false);
         if !after_ok {
             return Some(Violation {
@@ -519,7 +532,7 @@ fn oracle(sc: &Scenario, obs: &[RunObs]) -> Option<Violation> {
                 }
                 match r {
                     Ok(c) => {
-                        let allowed = o.before.as_ref() == Some(c) || new_bodies.iter().any(|n| n == c);
+                        let allowed = o.before.as_ref() == Some(c) || acceptable.iter().any(|n| n == c);
                         if !allowed {
                             return Some(Violation {
                                 clause: "served-wrong-contents".into(),
@@ -632,7 +645,7 @@ fn oracle(sc: &Scenario, obs: &[RunObs]) -> Option<Violation> {
                     let ok = o
                         .after
                         .as_ref()
-                        .map(|a| new_bodies.iter().any(|n| n == a))
+                        .map(|a| acceptable.iter().any(|n| n == a))
                         .unwrap_or(false);
                     if !ok {
                         return Some(Violation {
